@@ -113,7 +113,30 @@ var leafSpecs = []fieldSpec{
 	{t: reflect.TypeOf([]int64(nil)), ptag: "varint", rep: true},
 	{t: reflect.TypeOf([]string(nil)), ptag: "bytes", rep: true},
 	{t: reflect.TypeOf(map[string]int64(nil)), ptag: "bytes", rep: true, isMap: true},
+	// its JSON form depends on addressability: what a codec may assume about that must not
+	// depend on which entry point met the enclosing type first
+	{t: reflect.TypeOf(PtrMarsh{}), ptag: "bytes"},
 }
+
+// nestingMarshaler calls json.Marshal from inside MarshalJSON: two encode buffers are in use at once
+// on one goroutine.
+type nestingMarshaler struct{ depth int }
+
+func (n nestingMarshaler) MarshalJSON() ([]byte, error) {
+	var in any
+	if n.depth > 0 {
+		in = nestingMarshaler{n.depth - 1}
+	}
+	return json.Marshal(map[string]any{"depth": n.depth, "in": in})
+}
+
+// PtrMarsh has its JSON methods on the pointer receiver only.
+type PtrMarsh struct {
+	N int64 `json:"n" protobuf:"varint,1,opt,name=n" thrift:"1"`
+}
+
+func (p *PtrMarsh) MarshalJSON() ([]byte, error) { return []byte(`"ptr"`), nil }
+func (p *PtrMarsh) UnmarshalJSON(b []byte) error { p.N = int64(len(b)); return nil }
 
 // freshStruct builds a struct type that no earlier case of this process has built: its first
 // field name carries the case and type number.
@@ -551,6 +574,22 @@ func runCase(c *core.Case) {
 			failing("thrift.Marshal(unsupported)", func() error { _, err := thrift.Marshal(tCmp, bv.Interface()); return err }),
 			failing("thrift.Unmarshal(unsupported)", func() error { return thrift.Unmarshal(tBin, []byte{0}, reflect.New(bt).Interface()) }),
 			failing("json.Marshal(unsupported)", func() error { _, err := json.Marshal(bv.Interface()); return err }),
+			failing("json.Encoder(unsupported)", func() error {
+				var buf bytes.Buffer
+				e := json.NewEncoder(&buf)
+				err := e.Encode(bv.Interface())
+				if err2 := e.Encode(map[string]int{"after": 1}); err2 != nil || !strings.HasSuffix(buf.String(), "{\"after\":1}\n") {
+					return fmt.Errorf("Encoder after a failed Encode: %v %q (first error %v)", err2, buf.String(), err)
+				}
+				return err
+			}),
+			failing("json.Marshal(marshaler that marshals)", func() error {
+				b, err := json.Marshal([]any{nestingMarshaler{3}, "x"})
+				if err == nil && string(b) != `[{"depth":3,"in":{"depth":2,"in":{"depth":1,"in":{"depth":0,"in":null}}}},"x"]` {
+					return fmt.Errorf("wrong output %s", b)
+				}
+				return err
+			}),
 			failing("json.Unmarshal(unsupported)", func() error { return json.Unmarshal([]byte(`{"a":1,"c":2}`), reflect.New(bt).Interface()) }),
 			// encoders that fail in the middle of a sorted map, holding pooled scratch space
 			failing("json.Marshal(map with unsupported value)", func() error {
